@@ -575,7 +575,7 @@ def run(ctx: Ctx) -> None:
         "docstring result entries whose count differs from the annotation's are outside the core domain (statement is silent)",
         "returns of variables/calls/attributes are C01 material, not judged here",
     ]
-    failures = engine.search(ctx, MOD, shards=ctx.n(16, 96), examples=ctx.n(10, 40))
+    failures = engine.search(ctx, MOD, shards=ctx.n(16, 96), examples=ctx.n(20, 40))
     engine.report_failures(ctx, MOD, failures)
     engine.replay_known(ctx, MOD)
 
